@@ -108,6 +108,19 @@ def _key(case):
     return peers.keypool()[case["key"]]
 
 
+def _why(fam, case, alg, y, enabled):
+    """Root-cause bucket of an acceptance that should have been a rejection."""
+    if case.get("wrongtype"):
+        return "other-curve-accepted" if base(alg) in EC and case["wrongtype"].startswith("ecdsa") else "wrong-key-type-accepted"
+    if base(alg) not in enabled:
+        return "declared-algorithm-disabled-accepted"
+    if fam == "ec":
+        return "relabelled-signature-accepted"
+    if y not in RSA:
+        return "non-rsa-label-accepted"
+    return "mismatch-accepted" if y in enabled else "disabled-hash-accepted"
+
+
 # ----------------------------------------------------------------------------- role kex
 
 
@@ -146,12 +159,7 @@ def run_kex(ctx, case):
         ctx.violation("kex-signature-algorithm", "%s:honest-signature-rejected" % fam, case, "client=%r" % (ce,))
         return False
     if not expect and (accepted or newkeys or done):
-        if case.get("wrongtype"):
-            why = "other-curve-accepted" if base(x) in EC and case["wrongtype"].startswith("ecdsa") else "wrong-key-type-accepted"
-        elif y in enabled:
-            why = "mismatch-accepted"
-        else:
-            why = "disabled-hash-accepted"
+        why = _why(fam, case, x, y, enabled)
         ctx.violation(
             "kex-signature-algorithm",
             "%s:%s" % (fam, why),
@@ -209,14 +217,7 @@ def run_auth(ctx, case):
         ctx.violation("auth-signature-algorithm", "%s:honest-signature-rejected" % fam, case, "reply %r authenticated=%s" % (got, authed))
         return False
     if not expect and accepted:
-        if case.get("wrongtype"):
-            why = "other-curve-accepted" if base(d) in EC and case["wrongtype"].startswith("ecdsa") else "wrong-key-type-accepted"
-        elif base(d) not in enabled:
-            why = "declared-algorithm-disabled-accepted"
-        elif y in enabled:
-            why = "mismatch-accepted"
-        else:
-            why = "disabled-hash-accepted"
+        why = _why(fam, case, d, y, enabled)
         ctx.violation(
             "auth-signature-algorithm",
             "%s:%s" % (fam, why),
@@ -240,6 +241,11 @@ def domain():
                     if x in e:
                         cases.append({"role": "kex", "alg": alg, "sigalg": y, "enabled": e, "key": "rsa2048", "cert": cert})
                     cases.append({"role": "auth", "alg": alg, "sigalg": y, "enabled": e, "key": "rsa2048", "cert": cert})
+    # RSA signature labelled with a non-RSA algorithm name
+    for x in RSA:
+        for y in ("ssh-ed25519", "ecdsa-sha2-nistp256"):
+            cases.append({"role": "kex", "alg": x, "sigalg": y, "enabled": list(RSA), "key": "rsa2048", "cert": False})
+            cases.append({"role": "auth", "alg": x, "sigalg": y, "enabled": list(ALLKEYALGS), "key": "rsa2048", "cert": False})
     for x, kname in EC.items():
         for y in LABELS:
             cases.append({"role": "kex", "alg": x, "sigalg": y, "enabled": [x], "key": kname, "cert": False})
@@ -279,7 +285,7 @@ def run(ctx):
         c["user"] = t[2]
         _dispatch(ctx, c)
 
-    ctx.explore(gen, body, ctx.scale(40, 300), shrink=False)
+    ctx.explore(gen, body, ctx.scale(40, 2500), shrink=False)
 
 
 def replay(ctx, case):
